@@ -683,6 +683,24 @@ def oracle(ctx):
                     sig = SIG_D8
                 nroot[(col, k)] = sig
             root = nroot
+            if op in ("validate", "skip", "end") and before is not None and "rejected" not in ev:
+                # termination: the outcome of a job must not leave the same job dispatchable: the step
+                # is completed (SUCCEEDED / FAILED), deferred, lost its stored hash, or used up one defer
+                k = ev["args"]["step"]
+                sb, sa = _step_row(before, k), _step_row(after, k)
+                if sb is not None and sa is not None:
+                    ctx.case(("oracle-job-outcome", op, repr(sb), repr(sa)), True)
+                    progress = (sa["state"] in (M.SUCCEEDED, M.FAILED) or sa["deferred"]
+                                or (sb["hash_stored"] and not sa["hash_stored"])
+                                or sa["defer_count"] > sb["defer_count"])
+                    if sa["state"] == M.PENDING and not progress:
+                        branch = {"validate": "unchanged" if not ev["args"].get("changed") else "changed",
+                                  "skip": "ok" if ev["args"].get("ok") else "mismatch"}.get(op, ev["args"].get("kind"))
+                        fail(f"termination:{op}:{branch}:same-job-dispatchable-again", "termination",
+                             f"the job of step {M.label_of(before, k)!r} ended ({op}, {branch}) leaving it PENDING, not "
+                             f"deferred, with the same stored hash and defer count as when it was dispatched: the same job "
+                             f"can be handed out again without any intervening change (eligible by definition afterwards: "
+                             f"{va.eligible_spec(k)})", {**where, "step": M.label_of(before, k), "before_row": sb, "after_row": sa})
             if op == "phase_end" and not after["draining"]:
                 elig = va.eligible_set()
                 ctx.case(("oracle-phase-end", repr(after)), True)
@@ -708,6 +726,17 @@ def oracle(ctx):
     M.run_multi_consumer_family(M.MULTI_VARIANTS, fail,
                                 lambda v, obs: ctx.case(("multi-consumer", v[0]), True))
     ctx.count("multi_consumer_cases", len(M.MULTI_VARIANTS))
+    # D36 (fixed by d760e3e): the witness of C10_validate_without_defer_refuted on the real scheduler
+    r = run(M.replay_d36(), timeout=60)
+    ctx.case(("replay", "d36"), True)
+    ctx.stats["replay_d36"] = {k: r[k] for k in ("first", "prefix_outcome_next", "repo_outcome", "repo_outcome_next")}
+    if r["first"] != "validate" or r["prefix_outcome_next"] != "validate":
+        fail("replay:d36:witness-not-reproduced", "replay",
+             f"the scenario of C10_validate_without_defer_refuted no longer behaves as the model says: {r}", r)
+    if r["repo_outcome_next"] is not None:
+        fail("termination:validate:unchanged:same-job-dispatchable-again", "termination",
+             f"after the outcome that executor.validate_dynamic_job produces for an unchanged digest "
+             f"(set_state{tuple(r['repo_outcome'])}) pop_next_job hands out the same {r['repo_outcome_next']!r} job again", r)
     # deterministic replays of the Coq refutation witnesses (regressions for the fixed D18 and D8)
     r = run(M.replay_d11(), timeout=60)
     ctx.case(("replay", "d11"), True)
